@@ -168,7 +168,7 @@ def gen_faults(rng, sub, n, batch):
             elif x < 0.70:
                 faults.append({"kind": "kill", "victim": v, "where": ["exit", "flushed"], "code": code, "ordinary": True})
             elif x < 0.90:
-                faults.append({"kind": "raise", "victim": v, "record": rng.randrange(bl), "exc": "MemoryError", "code": 1})
+                faults.append({"kind": "raise", "victim": v, "record": rng.randrange(bl), "exc": "MemoryError" if x < 0.84 else "Unpicklable", "code": 1})
             else:
                 faults.append({"kind": "raise", "victim": v, "record": rng.randrange(bl), "exc": "SystemExit", "code": rng.choice([1, 2, 3, 77, 137, 255])})
         elif sub == "locked":
@@ -195,6 +195,7 @@ def enumerate_fault_points(n, batch):
         for k in range(bl):
             pts.append({"kind": "raise", "victim": v, "record": k, "exc": "MemoryError", "code": 1})
             pts.append({"kind": "raise", "victim": v, "record": k, "exc": "SystemExit", "code": 3})
+            pts.append({"kind": "raise", "victim": v, "record": k, "exc": "Unpicklable", "code": 1})
     return pts
 
 
